@@ -1,10 +1,20 @@
 """C27 — gear.database: transactions retry only transient MySQL errors, atomically (fault enumeration).
 
 The REAL gear.database (Database, Transaction, transaction, retry_transient_mysql_errors, _aexit_1, connection acquire /
-release through BackgroundTaskManager) runs on the fake aiomysql pool over a scratch minimysql engine with one table
-`t (id INT PRIMARY KEY, v INT)` and one stored procedure `put` returning `rc`.  Faults are injected by
+release through BackgroundTaskManager) runs on the fake aiomysql pool over a scratch minimysql engine with the tables
+`t (id INT PRIMARY KEY, v INT)`, `log (n INT AUTO_INCREMENT PRIMARY KEY, tag INT)` (append-only: a write applied twice shows up
+as a duplicated row) and one stored procedure `put` returning `rc`.  Faults are injected by
 `engine.fault_hook(sess, phase, sql)`, which the driver facade calls BEFORE pool.acquire hands out a connection and
 BEFORE it executes BEGIN / each statement / COMMIT, so a fault at COMMIT means "the commit did not happen".
+
+What the *server* does to the open transaction when it reports an error is modelled in the hook (`server_effect`), as MySQL
+documents it (InnoDB error handling): a deadlock (1213) rolls back the WHOLE transaction, a lock wait timeout (1205) rolls back
+only the failing STATEMENT and leaves the transaction open with its earlier writes pending (innodb_rollback_on_timeout=OFF, the
+default), a lost connection (2013) ends the session and with it the transaction, a COMMIT answered with an error has rolled the
+transaction back; every other error is a statement error (the transaction stays open).  Whoever hands such a connection back to the pool must therefore roll back first: the check observes
+the transaction state of every connection at the moment it is released, and runs each case under one of two pools (part of the
+generated case): `aiomysql` (closes a connection released inside a transaction, as aiomysql.Pool.release does) and `reuse` (a pool
+that hands the connection out again as it is: the next START TRANSACTION on it implicitly commits what was pending).
 """
 from __future__ import annotations
 
@@ -14,19 +24,33 @@ from vlib.runner import Result
 PROPERTY = 'C27'
 LEVEL = 'fault_enumeration'
 RULE = ('operation shapes: @transaction(db) bodies of 1-5 statements (insert / update / update-all / delete / select / bulk '
-        'insert / CALL) and every single-statement Database entry point (execute_update, execute_insertone, execute_many '
+        'insert / CALL / append to the key-less log table) and every single-statement Database entry point (execute_update, execute_insertone, execute_many '
         '[bulk INSERT = one statement; UPDATE = one statement per row], check_call_procedure, just_execute, '
         'execute_and_fetchone, select_and_fetchone, execute_and_fetchall, select_and_fetchall) on a table preloaded with '
-        '{1:10, 2:20}; fault = (attempt a in 1..3, position in {acquire, BEGIN, statement k, COMMIT}, error in {OperationalError '
+        '{1:10, 2:20} and an empty log table; fault = (attempt a in 1..3, position in {acquire, BEGIN, statement k, COMMIT}, error in {OperationalError '
         '1040/1213/2003/2013/1045/1644/1062/1205, InternalError 1205/1105, IntegrityError 1062, ProgrammingError 1064, RuntimeError, '
         'CancelledError}). EXHAUSTIVE: every fixed shape x a x position x error, attempts < a being failed by a deadlock after the '
-        'last statement; GENERATED (Hypothesis): random bodies with 2-4 faults at arbitrary (attempt, position) and jitter draws. '
+        'last statement, each case under the pool named by (shape, a, position, error) parity [aiomysql | reuse]; GENERATED '
+        '(Hypothesis): random bodies with 2-4 faults at arbitrary (attempt, position) and jitter draws, pool drawn; and the '
+        'production *after_write*: a @transaction body whose first statement is a write that succeeds on the preloaded table, 1-4 more '
+        'statements, and in each of attempts 1..a (a in 1..3) one retried error -- every retried (class, code) pair: OperationalError '
+        '1040/1205/1213/2003/2013, InternalError 1205 -- at a drawn position AFTER that write (statement k >= 1 or COMMIT), plus 0-2 '
+        'arbitrary further faults. Server side (hook): 1213, 2013 and any MySQL error answering COMMIT roll the whole transaction back '
+        'before the error is raised, 1205 and every other error at a statement leave the transaction open with the earlier writes '
+        'pending. '
         'asyncio.sleep runs on a virtual clock; the back-off jitter comes from the case. Oracle (reference interpreter over a dict, '
         'written from the statement): the operation is attempted again iff the injected/intrinsic error is transient (deadlock 1213, '
         'lock wait timeout 1205, lost connection 2013, too many connections 1040, cannot connect 2003); any other error propagates '
-        'after exactly one attempt; outcome = model outcome; final table = effects of exactly the one committed attempt, or none; '
-        'every acquired connection released exactly once, none left in use / in a transaction; k-th back-off sleep within '
-        '[min(60s, 2^k/2 s), min(60s, 2^k s)]. Non-trivial: a fault fired after >= 1 write of its attempt.')
+        'after exactly one attempt; outcome = model outcome; effect exactly once at the data level: final tables (t and the multiset '
+        'of log rows, including whatever is still pending on a pooled connection) = the writes of exactly the one committed attempt, '
+        'nothing at all when the operation gave up; every acquired connection released exactly once, none left in use, and every '
+        'connection is OUTSIDE a transaction with nothing pending at the moment it is handed back to the pool; k-th back-off sleep within '
+        '[min(60s, 2^k/2 s), min(60s, 2^k s)]. Classes: fault_after_successful_write (a fault at a statement/COMMIT position that follows '
+        '>= 1 successful write of the same attempt), split by what the server did (…_stmt_rollback_only = 1205 & statement errors, '
+        '…_txn_rolled_back = 1213/2013) and by error (…_OE1205, …_IE1205, …); retried_after_pending_writes (such a fault was transient and '
+        'the operation went on to another attempt); pool_aiomysql / pool_reuse; gave_up_after_writes_nothing_visible; '
+        'excluded_reuse_pool_client_interrupted_commit (a plan with RuntimeError / CancelledError at COMMIT is run under the aiomysql '
+        'pool whatever was drawn, see ASSUMPTIONS). Non-trivial: a fault fired after >= 1 write of its attempt.')
 ASSUMPTIONS = [
     'a fault at COMMIT is modelled as "the commit did not happen" (the hook fires before the engine commits); a commit that succeeded '
     'on the server but whose acknowledgement was lost is not modelled',
@@ -36,8 +60,29 @@ ASSUMPTIONS = [
     'not-retried-otherwise, atomicity and connection clauses are',
     'lock wait timeout is judged transient whichever pymysql class carries code 1205 (pymysql>=0.10 raises OperationalError for it)',
     'minimysql executes transactions one at a time; deadlocks / lock waits / lost connections exist only as injected errors',
+    'server-side effect of an injected error on the open transaction, applied by the fault hook in checks/c27.py before the error is '
+    'raised, follows the MySQL reference manual (InnoDB Error Handling): 1213 deadlock -> whole transaction rolled back; 1205 lock wait '
+    'timeout -> only the failing statement is rolled back, the transaction stays open (innodb_rollback_on_timeout=OFF, the default); 2013 '
+    'lost connection -> the server ends the session and rolls its transaction back (the client-side connection object stays usable: a '
+    'ROLLBACK sent on it is answered, faults during ROLLBACK are out of scope); duplicate key / syntax / SIGNAL and all other statement '
+    'errors -> statement rolled back, transaction open; 1040 / 2003 (connection establishment) injected at a statement position and the '
+    'client-side RuntimeError / CancelledError have no server-side effect (transaction open); any MySQL error answering COMMIT -> the '
+    'transaction is rolled back (a failed commit is rolled back by the server; COMMIT takes no row locks, so a statement-level 1205 '
+    'cannot arise there)',
+    'RuntimeError / CancelledError injected at the COMMIT position (COMMIT never sent) leave the transaction open; gear.database does '
+    'not roll back after a failing COMMIT and hands the connection back as it is, which aiomysql.Pool.release answers by closing it. '
+    'Nothing real interrupts COMMIT on the client side (Transaction._aexit is shielded), so this is accepted: such plans always run under '
+    'the aiomysql pool (class excluded_reuse_pool_client_interrupted_commit counts the redirected draws) and the '
+    'released-inside-a-transaction clause is waived for that one attempt (class client_interrupted_commit_relies_on_pool_close)',
+    'the injected error replaces the statement (the hook fires before it executes), which is what "the failing statement is rolled back" '
+    'amounts to; a statement that partly executed and was undone is covered by minimysql statement atomicity (trusted)',
+    'pool `reuse` stands for any pool that does not inspect the transaction status on release (the property is stated at the '
+    'gear.database level: every attempt is closed by COMMIT or ROLLBACK before its connection is handed back); pool `aiomysql` closes '
+    'such a connection, so there the defect shows as a connection released inside a transaction, not as data',
+    'START TRANSACTION on a connection that still has a transaction open commits it implicitly (MySQL: statements that cause an '
+    'implicit commit); minimysql implements this',
 ]
-TRUSTED = ['vlib/minimysql (statement atomicity, ROLLBACK, release-closes-open-transaction as aiomysql does)', 'vlib/aiosched.py virtual loop',
+TRUSTED = ['vlib/minimysql (statement atomicity, ROLLBACK, implicit commit at START TRANSACTION, release-closes-open-transaction as aiomysql does)', 'vlib/aiosched.py virtual loop',
            'reference interpreter `model()` in checks/c27.py']
 
 INITIAL = {1: 10, 2: 20}
@@ -69,8 +114,35 @@ SQL = {
     'sel': 'SELECT id, v FROM t ORDER BY id',
     'sel1': 'SELECT COUNT(*) AS n FROM t',
     'call': 'CALL put(%s, %s)',
+    'log': 'INSERT INTO log (tag) VALUES (%s)',
 }
-WRITES = ('ins', 'upd', 'updall', 'del', 'many', 'call')
+WRITES = ('ins', 'upd', 'updall', 'del', 'many', 'call', 'log')
+POOLS = ('aiomysql', 'reuse')
+RETRIED = ('OE1205', 'IE1205', 'OE1213', 'OE2013', 'OE1040', 'OE2003')     # every (class, code) pair the statement calls transient
+
+
+def server_effect(errname, pos=0):
+    """What the server has done to the session's open transaction when it reports this error at this position (see ASSUMPTIONS)."""
+    cls, code, _t = ERRORS[errname]
+    if code is None:
+        return 'client_side'            # RuntimeError / CancelledError: the server saw nothing, the transaction stays open
+    if code in (1213, 2013) and cls == 'OperationalError':
+        return 'txn_rolled_back'
+    if pos == 'commit':
+        return 'txn_rolled_back'        # a COMMIT answered with an error has rolled the transaction back
+    return 'stmt_rollback_only'
+
+
+def effective_pool(case):
+    """The pool the case runs under.  A CLIENT-side interruption of COMMIT (RuntimeError / CancelledError raised instead of sending it)
+    leaves the transaction open and gear.database hands the connection back as it is, relying on aiomysql.Pool.release to close it
+    (not a defect against the pool it is written for, and nothing real produces such an interruption: _aexit is shielded): those
+    plans always run under the aiomysql pool and the released-inside-a-transaction clause is not applied to that attempt."""
+    if any(p == 'commit' and ERRORS[e][1] is None for _a, p, e in case['faults']):
+        return 'aiomysql'
+    return case.get('pool', 'aiomysql')
+
+
 STREAM_MODES = ('db_fetchall', 'db_selectall')
 MODES = ('tx', 'tx_ro', 'db_update', 'db_insertone', 'db_many_ins', 'db_many_upd', 'db_call', 'db_just', 'db_fetchone',
          'db_selectone', 'db_fetchall', 'db_selectall')
@@ -88,6 +160,9 @@ SHAPES = [
     ('tx', [['call', 3, 30], ['upd', 3, 1]]),
     ('tx', [['call', 1, 0], ['sel']]),
     ('tx', [['del', 1], ['del', 2], ['ins', 1, 99], ['ins', 2, 98]]),
+    ('tx', [['log', 1], ['log', 2], ['log', 3]]),
+    ('tx', [['log', 7], ['ins', 3, 30], ['sel'], ['upd', 3, 1], ['log', 7]]),
+    ('tx', [['upd', 2, 5], ['log', 4]]),
     ('tx_ro', [['sel'], ['sel1']]),
     ('db_update', [['upd', 1, 1]]),
     ('db_update', [['updall', 3]]),
@@ -102,6 +177,8 @@ SHAPES = [
     ('db_call', [['call', 1, 0]]),
     ('db_just', [['del', 2]]),
     ('db_just', [['updall', 1]]),
+    ('db_just', [['log', 9]]),
+    ('db_insertone', [['log', 9]]),
     ('db_fetchone', [['sel1']]),
     ('db_fetchone', [['upd', 2, 2]]),
     ('db_selectone', [['sel1']]),
@@ -120,10 +197,13 @@ class _Fail(Exception):
         self.name = name
 
 
-def apply_stmt(state, st):
-    """-> True if the statement wrote something; raises _Fail('IG1062') on an intrinsic duplicate key; `state` is mutated only
-    when the whole statement succeeds (statement atomicity)."""
+def apply_stmt(state, st, log=None):
+    """-> True if the statement wrote something; raises _Fail('IG1062') on an intrinsic duplicate key; `state` (table t) and `log`
+    (the rows of the log table, a list of tags) are mutated only when the whole statement succeeds (statement atomicity)."""
     k = st[0]
+    if k == 'log':
+        log.append(st[1])
+        return True
     if k == 'ins':
         if st[1] in state:
             raise _Fail('IG1062')
@@ -160,17 +240,25 @@ def apply_stmt(state, st):
 
 
 def model(mode, body, faults, retrying=True):
-    """-> dict(attempts, body_calls, outcome=('ok',)|('raise', errname), table, fired_after_write)."""
+    """-> dict(attempts, body_calls, outcome=('ok',)|('raise', errname), table, log, fired_after_write, after_write=[(attempt,
+    position, error)] faults that fired at a statement / COMMIT position following >= 1 successful write of the same attempt)."""
     fmap = {}
     for a, p, e in faults:
         fmap.setdefault((a, p if isinstance(p, str) else int(p)), e)
     committed = dict(INITIAL)
+    committed_log = []
     attempts = 0
     body_calls = 0
     fired_after_write = False
+    after_write = []
+
+    def out(outcome):
+        return dict(attempts=attempts, body_calls=body_calls, outcome=outcome, table=committed, log=committed_log,
+                    fired_after_write=fired_after_write, after_write=after_write)
     while True:
         attempts += 1
         work = dict(committed)
+        wlog = list(committed_log)
         wrote = False
         err = None
         call_rc = 0
@@ -183,9 +271,10 @@ def model(mode, body, faults, retrying=True):
                 if (attempts, k) in fmap:
                     if wrote:
                         fired_after_write = True
+                        after_write.append((attempts, k, fmap[(attempts, k)]))
                     raise _Fail(fmap[(attempts, k)])
                 try:
-                    w = apply_stmt(work, st)
+                    w = apply_stmt(work, st, wlog)
                 except _Fail:
                     if wrote:
                         fired_after_write = True
@@ -196,18 +285,19 @@ def model(mode, body, faults, retrying=True):
             if (attempts, 'commit') in fmap:
                 if wrote:
                     fired_after_write = True
+                    after_write.append((attempts, 'commit', fmap[(attempts, 'commit')]))
                 raise _Fail(fmap[(attempts, 'commit')])
             committed = work
+            committed_log = wlog
         except _Fail as f:
             err = f.name
         if err is None:
             if mode == 'db_call' and call_rc:
-                return dict(attempts=attempts, body_calls=body_calls, outcome=('raise', 'CALLERROR'), table=committed,
-                            fired_after_write=fired_after_write)
-            return dict(attempts=attempts, body_calls=body_calls, outcome=('ok',), table=committed, fired_after_write=fired_after_write)
+                return out(('raise', 'CALLERROR'))
+            return out(('ok',))
         if ERRORS[err][2] and retrying and attempts < 50:
             continue
-        return dict(attempts=attempts, body_calls=body_calls, outcome=('raise', err), table=committed, fired_after_write=fired_after_write)
+        return out(('raise', err))
 
 
 # ---------------------------------------------------------------------------------------------- execution on the real code
@@ -221,6 +311,7 @@ def _engine():
         eng = Engine()
         s = eng.connect()
         s.execute('CREATE TABLE t (id INT PRIMARY KEY, v INT)')
+        s.execute('CREATE TABLE log (n INT NOT NULL AUTO_INCREMENT PRIMARY KEY, tag INT)')
         s.execute('''CREATE PROCEDURE put(IN in_id INT, IN in_v INT)
 BEGIN
   DECLARE n INT;
@@ -308,6 +399,8 @@ async def _run_body(tx, body):
             await tx.execute_and_fetchone(SQL['sel1'])
         elif k == 'call':
             await tx.execute_and_fetchone(SQL['call'], (st[1], st[2]))
+        elif k == 'log':
+            await tx.execute_insertone(SQL['log'], (st[1],))
         else:
             raise AssertionError(k)
 
@@ -318,14 +411,14 @@ def _args(st):
         return (st[1], st[2])
     if k == 'upd':
         return (st[2], st[1])
-    if k in ('updall', 'del'):
+    if k in ('updall', 'del', 'log'):
         return (st[1],)
     return None
 
 
 def valid_case(case):
     mode, body = case['mode'], case['body']
-    if mode not in MODES or not body:
+    if mode not in MODES or not body or case.get('pool', 'aiomysql') not in POOLS:
         return False
     kinds = [s[0] for s in body]
     if mode == 'tx':
@@ -337,8 +430,8 @@ def valid_case(case):
     if len(body) != 1:
         return False
     k = kinds[0]
-    return {'db_update': k in ('upd', 'updall', 'del', 'ins'), 'db_insertone': k == 'ins', 'db_many_ins': k == 'many',
-            'db_call': k == 'call', 'db_just': k in ('upd', 'updall', 'del', 'ins'), 'db_fetchone': k in ('sel1', 'upd', 'call'),
+    return {'db_update': k in ('upd', 'updall', 'del', 'ins', 'log'), 'db_insertone': k in ('ins', 'log'), 'db_many_ins': k == 'many',
+            'db_call': k == 'call', 'db_just': k in ('upd', 'updall', 'del', 'ins', 'log'), 'db_fetchone': k in ('sel1', 'upd', 'call'),
             'db_selectone': k == 'sel1', 'db_fetchall': k == 'sel', 'db_selectall': k == 'sel'}[mode]
 
 
@@ -352,13 +445,15 @@ def execute(case):
     from vlib.aiosched import new_loop, close_loop
 
     mode, body = case['mode'], case['body']
+    pool_mode = effective_pool(case)
     fmap = {}
     for a, p, e in case['faults']:
         fmap.setdefault((a, p if isinstance(p, str) else int(p)), e)
     eng = _engine()
     driver.install()
     driver.set_engine(eng)
-    obs = dict(attempt_times=[], body_calls=0, fired=[], acquired=0, released=0, double_release=0, foreign_release=0)
+    obs = dict(attempt_times=[], body_calls=0, fired=[], acquired=0, released=0, double_release=0, foreign_release=0,
+               released_in_txn=[], implicit_commits=0)
     st = dict(attempt=0, k=0)
     loop = new_loop()
 
@@ -377,9 +472,17 @@ def execute(case):
             st['k'] += 1
         else:
             return
+        if phase == 'begin' and sess is not None and (sess.in_txn or sess.undo):
+            obs['implicit_commits'] += 1        # START TRANSACTION on a connection whose previous transaction was never closed
         e = fmap.get((st['attempt'], pos))
         if e is not None:
             obs['fired'].append([st['attempt'], pos, e])
+            if sess is not None and server_effect(e, pos) == 'txn_rolled_back':
+                # deadlock victim / lost connection / failed COMMIT: the server has rolled the whole transaction back before the
+                # client sees the error.  Everything else (1205 lock wait timeout included) leaves the transaction open: only the
+                # failing statement -- which the raise below replaces -- is undone.
+                eng.rollback(sess)
+                eng.gate.release(sess)
             raise make_error(e)
 
     saved_random = U.random
@@ -404,6 +507,18 @@ def execute(case):
                     obs['released'] += 1
                 elif conn is not None:
                     obs['double_release'] += 1
+                if conn is not None and not conn.closed and (conn.session.in_txn or conn.session.undo):
+                    # handed back inside a transaction: the attempt that used it was closed neither by COMMIT nor by ROLLBACK
+                    if fmap.get((st['attempt'], 'commit')) in ('RUNTIME', 'CANCEL') and obs['fired'] and obs['fired'][-1][1] == 'commit':
+                        obs['client_interrupted_commit'] = obs.get('client_interrupted_commit', 0) + 1      # see effective_pool
+                    else:
+                        obs['released_in_txn'].append([st['attempt'], len(conn.session.undo)])
+                    if pool_mode == 'reuse' and conn in pool._used:
+                        # a pool that does not look at the transaction status: the connection goes back as it is
+                        pool._used.discard(conn)
+                        pool._free.append(conn)
+                        pool._wakeup()
+                        return real_release(None)
                 return real_release(conn)
             pool._acquire = _acquire
             pool.release = release
@@ -421,7 +536,7 @@ def execute(case):
                 if mode == 'db_update':
                     return await db.execute_update(SQL[s0[0]], _args(s0))
                 if mode == 'db_insertone':
-                    return await db.execute_insertone(SQL['ins'], _args(s0))
+                    return await db.execute_insertone(SQL[s0[0]], _args(s0))
                 if mode == 'db_many_ins':
                     return await db.execute_many(SQL['ins'], [tuple(x) for x in s0[1]])
                 if mode == 'db_many_upd':
@@ -455,16 +570,24 @@ def execute(case):
             obs['in_use'] = len(pool._used)
             obs['out'] = len(out)
             obs['open_txn_sessions'] = sum(1 for s in eng.sessions if s.in_txn or s.undo)
+            obs['pending_writes'] = sum(len(s.undo) for s in eng.sessions)
             obs['gate_owner'] = eng.gate.owner is not None
+            # Data-level reading.  minimysql keeps uncommitted writes in place (undo log), so this reading INCLUDES what is still
+            # pending on pooled connections -- exactly what their next START TRANSACTION would commit implicitly.
             s = eng.connect()
             try:
                 obs['table'] = {r['id']: r['v'] for r in s.query('SELECT id, v FROM t')}
+                obs['log'] = sorted(r['tag'] for r in s.query('SELECT tag FROM log'))
             finally:
                 eng.close_session(s)
             pool._acquire, pool.release = real_acquire, real_release
             await db.async_close()
 
-        loop.run_until_complete(main())
+        from vlib.aiosched import Deadlock, Livelock
+        try:
+            loop.run_until_complete(main())
+        except (Deadlock, Livelock) as e:
+            obs['hang'] = f'{type(e).__name__}: {e}'[:300]
     finally:
         U.random = saved_random
         eng.fault_hook = None
@@ -479,18 +602,39 @@ def run_case(case):
         return False, ['invalid_case_skipped'], []
     exp = model(mode, body, faults, retrying=True)
     obs = execute(case)
+    if obs.get('hang'):
+        return False, [f'mode_{mode}', 'hang'], [('operation-hangs', 'the operation returns or raises',
+                                                  f'{mode} body={body} faults={faults} pool={case.get("pool", "aiomysql")}: {obs["hang"]}')]
     stream = mode in STREAM_MODES
     if stream and len(obs['attempt_times']) != exp['attempts']:
         exp = model(mode, body, faults, retrying=False)     # accepted alternative for async-generator reads (see ASSUMPTIONS)
-    classes = {f'mode_{mode}', f'outcome_{exp["outcome"][0]}', f'attempts_{min(exp["attempts"], 4)}'}
+    pool_mode = effective_pool(case)
+    classes = {f'mode_{mode}', f'outcome_{exp["outcome"][0]}', f'attempts_{min(exp["attempts"], 4)}', f'pool_{pool_mode}'}
     for a, p, e in obs['fired']:
         classes.add(f'fired_{e}')
         classes.add('fired_at_' + (p if isinstance(p, str) else 'statement'))
+        if not isinstance(p, str) and p >= 1:
+            classes.add('fired_at_statement_ge1')
+    for a, p, e in exp['after_write']:
+        # a fault placed behind >= 1 successful write of the same attempt: the connection holds pending writes when the error arrives
+        classes.add('fault_after_successful_write')
+        classes.add('fault_after_successful_write_' + server_effect(e, p))
+        classes.add('fault_after_successful_write_' + e)
+        classes.add('fault_after_successful_write_at_' + ('commit' if p == 'commit' else 'statement'))
+        if ERRORS[e][2] and a < exp['attempts']:
+            classes.add('retried_after_pending_writes')
+            classes.add('retried_after_pending_writes_' + e)
+    if pool_mode != case.get('pool', 'aiomysql'):
+        classes.add('excluded_reuse_pool_client_interrupted_commit')
+    if obs.get('client_interrupted_commit'):
+        classes.add('client_interrupted_commit_relies_on_pool_close')
+    if exp['outcome'][0] == 'raise' and exp['fired_after_write']:
+        classes.add('gave_up_after_writes_nothing_visible')
     if stream and exp['attempts'] == 1 and obs['fired'] and ERRORS[obs['fired'][0][2]][2]:
         classes.add('stream_transient_not_retried')
     nontrivial = bool(exp['fired_after_write'])
     n_att = len(obs['attempt_times'])
-    desc = f'{mode} body={body} faults={faults}'
+    desc = f'{mode} body={body} faults={faults} pool={pool_mode}'
     fired = obs['fired']
     last = fired[-1] if fired else None
 
@@ -525,27 +669,52 @@ def run_case(case):
         if mode in ('tx', 'tx_ro') and obs['body_calls'] != exp['body_calls']:
             fails.append(('body-call-count', 'the body is invoked once per attempt that obtained a transaction',
                           f'{desc}: body invoked {obs["body_calls"]} times, expected {exp["body_calls"]}'))
-    # ---- atomicity
-    if obs['table'] != exp['table'] and n_att == exp['attempts']:
+    # ---- atomicity / effect exactly once, at the data level (t and the multiset of log rows; pending writes of pooled connections
+    # count: see execute)
+    got = (obs['table'], obs['log'])
+    want = (exp['table'], sorted(exp['log']))
+
+    def show(x):
+        return f't={sorted(x[0].items())} log={x[1]}'
+    if got != want and n_att == exp['attempts']:
         extra = ''
         if last is not None:
             extra = f'; last fault {last}'
-        fails.append(('partial-writes', 'no retried or failed attempt leaves partial writes behind',
-                      f'{desc}: table {sorted(obs["table"].items())}, expected {sorted(exp["table"].items())}{extra}'))
-    elif obs['table'] != exp['table']:
+        if obs['pending_writes']:
+            extra += f'; {obs["pending_writes"]} write(s) of it still pending on a pooled connection'
+        if obs['implicit_commits']:
+            extra += f'; {obs["implicit_commits"]} START TRANSACTION implicitly committed a previous attempt'
+        dup = exp['outcome'][0] == 'ok' and any(obs['log'].count(x) > sorted(exp['log']).count(x) for x in set(obs['log']))
+        gave_up = exp['outcome'][0] == 'raise'
+        sig = 'writes-applied-twice' if dup else 'gave-up-but-writes-visible' if gave_up and want == (INITIAL, []) else 'partial-writes'
+        fails.append((sig, 'no retried or failed attempt leaves partial writes behind',
+                      f'{desc}: tables {show(got)}, expected {show(want)}{extra}'))
+    elif got != want:
         # attempt count already wrong: still judge atomicity against "some prefix of attempts committed exactly once"
-        ok_tables = []
+        ok = [(dict(INITIAL), [])]
         for r in (True, False):
-            ok_tables.append(model(mode, body, faults, retrying=r)['table'])
-        ok_tables.append(dict(INITIAL))
-        if obs['table'] not in ok_tables:
+            m2 = model(mode, body, faults, retrying=r)
+            ok.append((m2['table'], sorted(m2['log'])))
+        if got not in ok:
             fails.append(('partial-writes', 'no retried or failed attempt leaves partial writes behind',
-                          f'{desc}: table {sorted(obs["table"].items())} is neither the initial table nor one committed attempt'))
+                          f'{desc}: tables {show(got)} are neither the initial tables nor one committed attempt'))
     # ---- connections
     if obs['acquired'] != obs['released'] or obs['double_release'] or obs['in_use'] or obs['out'] or obs['pending_release_tasks']:
         fails.append(('connection-leak', 'every acquired connection is released exactly once',
                       f'{desc}: acquired {obs["acquired"]}, released {obs["released"]}, released twice {obs["double_release"]}, '
                       f'still in use {obs["in_use"]}, release tasks pending {obs["pending_release_tasks"]}'))
+    if obs['released_in_txn']:
+        a0, pend = obs['released_in_txn'][0]
+        culprit = next((f for f in fired if f[0] == a0), None)
+        fails.append(('connection-released-inside-transaction', 'no retried or failed attempt leaves partial writes behind: every attempt '
+                      'is closed by COMMIT or ROLLBACK before its connection goes back to the pool',
+                      f'{desc}: the connection of attempt {a0} was handed back to the pool inside an open transaction with {pend} '
+                      f'pending row change(s) (fault of that attempt: {culprit}); a pool that reuses it commits them at the next START '
+                      f'TRANSACTION, aiomysql drops the connection'))
+    if obs['implicit_commits']:
+        fails.append(('implicit-commit-of-failed-attempt', 'no retried or failed attempt leaves partial writes behind',
+                      f'{desc}: {obs["implicit_commits"]} START TRANSACTION statement(s) ran on a connection that still had a transaction '
+                      f'open and committed it implicitly'))
     if obs['open_txn_sessions'] or obs['gate_owner']:
         fails.append(('open-transaction-left', 'no connection is left inside a transaction',
                       f'{desc}: {obs["open_txn_sessions"]} session(s) still in a transaction, gate held: {obs["gate_owner"]}'))
@@ -570,16 +739,29 @@ def enum_cases(shape_idx):
     mode, body = SHAPES[shape_idx]
     pos = positions(body)
     last_stmt = len(body) - 1
+    multi = mode == 'tx' and len(body) >= 2
+    n = 0
     for a in (1, 2, 3):
         prefix = [[b, last_stmt, 'OE1213'] for b in range(1, a)]
-        for p in pos:
-            for e in ERR_NAMES:
-                yield dict(mode=mode, body=body, faults=prefix + [[a, p, e]], jitter=[(a + len(e)) % 4])
-    yield dict(mode=mode, body=body, faults=[], jitter=[0])
+        for pi, p in enumerate(pos):
+            for ei, e in enumerate(ERR_NAMES):
+                n += 1
+                # multi-statement transactions: a fault at the first attempt under BOTH pools, otherwise alternating
+                pools = POOLS if (multi and a == 1) else (POOLS[(shape_idx + a + pi + ei) % 2],)
+                for pool in pools:
+                    yield dict(mode=mode, body=body, faults=prefix + [[a, p, e]], jitter=[(a + len(e)) % 4], pool=pool)
+    # a lock wait timeout behind the writes of EVERY earlier attempt (the prefix above uses deadlocks)
+    if multi:
+        for e in ('OE1205', 'IE1205'):
+            for pool in POOLS:
+                yield dict(mode=mode, body=body, faults=[[1, last_stmt, e], [2, 'commit', e], [3, max(1, last_stmt - 1), e]],
+                           jitter=[1], pool=pool)
+    for pool in POOLS:
+        yield dict(mode=mode, body=body, faults=[], jitter=[0], pool=pool)
 
 
 def plan(tier):
-    n = 2500 if tier == 'quick' else 40000
+    n = 2000 if tier == 'quick' else 40000
     groups = [[] for _ in range(8)]
     for i in range(len(SHAPES)):
         groups[i % 8].append(i)
@@ -598,8 +780,22 @@ def _strategy():
         st.just(['sel']), st.just(['sel1']),
         st.tuples(st.just('call'), ids, st.integers(0, 9)).map(list),
         st.tuples(st.just('many'), st.lists(st.tuples(st.integers(1, 7), st.integers(0, 9)).map(list), min_size=1, max_size=3)).map(list),
+        st.tuples(st.just('log'), st.integers(0, 3)).map(list),
     )
     tx = st.tuples(st.just('tx'), st.lists(stmt, min_size=1, max_size=5))
+    # a statement that certainly writes when it is the FIRST of a transaction on the preloaded tables {1:10, 2:20} / empty log
+    fresh = st.integers(3, 5)
+    first_write = st.one_of(
+        st.tuples(st.just('log'), st.integers(0, 3)).map(list),
+        st.tuples(st.just('ins'), fresh, st.integers(0, 9)).map(list),
+        st.tuples(st.just('upd'), st.integers(1, 2), dv).map(list),
+        st.tuples(st.just('updall'), dv).map(list),
+        st.tuples(st.just('del'), st.integers(1, 2)).map(list),
+        st.tuples(st.just('call'), fresh, st.integers(0, 9)).map(list),
+        st.tuples(st.just('many'), st.lists(st.tuples(st.integers(3, 7), st.integers(0, 9)).map(list), min_size=1, max_size=3,
+                                            unique_by=lambda x: x[0])).map(list),
+    )
+    tx_w = st.tuples(st.just('tx'), st.tuples(first_write, st.lists(stmt, min_size=1, max_size=4)).map(lambda t: [t[0]] + t[1]))
     upd = st.tuples(st.just('upd'), ids, dv).map(list)
     ins = st.tuples(st.just('ins'), ids, st.integers(0, 9)).map(list)
     many = st.tuples(st.just('many'), st.lists(st.tuples(st.integers(1, 7), st.integers(0, 9)).map(list), min_size=1, max_size=4)).map(list)
@@ -614,15 +810,30 @@ def _strategy():
         st.tuples(st.just('db_fetchall'), st.just([['sel']])),
     )
     shape = st.one_of(tx, tx, single)
+    jit = st.lists(st.integers(0, 3), min_size=1, max_size=4)
+    pools = st.sampled_from(POOLS)
+
+    def any_fault(body):
+        transient = [e for e in ERR_NAMES if ERRORS[e][2]]
+        return st.tuples(st.integers(1, 3), st.sampled_from(positions(body)),
+                         st.one_of(st.sampled_from(transient), st.sampled_from(ERR_NAMES))).map(list)
 
     def faults_for(sh):
         mode, body = sh
-        pos = positions(body)
-        transient = [e for e in ERR_NAMES if ERRORS[e][2] and e != 'OE1205']
-        f = st.tuples(st.integers(1, 3), st.sampled_from(pos), st.one_of(st.sampled_from(transient), st.sampled_from(ERR_NAMES))).map(list)
-        return st.builds(lambda fs, j: dict(mode=mode, body=body, faults=fs, jitter=j),
-                         st.lists(f, min_size=2, max_size=4), st.lists(st.integers(0, 3), min_size=1, max_size=4))
-    return shape.flatmap(faults_for)
+        return st.builds(lambda fs, j, pl: dict(mode=mode, body=body, faults=fs, jitter=j, pool=pl),
+                         st.lists(any_fault(body), min_size=2, max_size=4), jit, pools)
+
+    def after_write_for(sh):
+        # production *after_write*: in each of the attempts 1..a one retried error at a position BEHIND the first statement (which
+        # certainly wrote), i.e. the error reaches a connection that holds pending writes; then 0-2 arbitrary further faults (first
+        # fault per (attempt, position) wins, so the constructed ones stay in force)
+        mode, body = sh
+        behind = list(range(1, len(body))) + ['commit']
+        one = st.tuples(st.sampled_from(behind), st.sampled_from(RETRIED))
+        return st.builds(lambda fs, extra, j, pl: dict(mode=mode, body=body, jitter=j, pool=pl,
+                                                      faults=[[i + 1, p, e] for i, (p, e) in enumerate(fs)] + extra),
+                         st.lists(one, min_size=1, max_size=3), st.lists(any_fault(body), max_size=2), jit, pools)
+    return st.one_of(shape.flatmap(faults_for), tx_w.flatmap(after_write_for))
 
 
 def run_shard(spec, seed, tier):
